@@ -231,10 +231,12 @@ def translate_expression(expr, env: Env) -> TExp:  # noqa: C901
             if arg_l != arg_r:
                 raise TypeErrorException(tleft[0], tcomp[0])
 
+            # Two tuples differ if ANY of their bits differ: a != b is not (a == b)
+            op = Qbool.eq
             if isinstance(expr.ops[0], ast.Eq):
-                op = Qbool.eq
+                negate = False
             elif isinstance(expr.ops[0], ast.NotEq):
-                op = Qbool.neq
+                negate = True
             else:
                 raise exceptions.OperationNotSupportedException(bool, expr.ops[0])
 
@@ -249,7 +251,7 @@ def translate_expression(expr, env: Env) -> TExp:  # noqa: C901
                         c = And(c, op((bool, tleft[1][idx]), (bool, tcomp[1][idx]))[1])
                         idx += 1
 
-            return (bool, c)
+            return (bool, Not(c) if negate else c)
 
         elif issubclass(tleft[0], Qtype) and issubclass(tcomp[0], Qtype):  # type: ignore
             if not tleft[0].comparable(tcomp[0]):  # type: ignore
